@@ -203,3 +203,82 @@ def et_sample(w):
         if view(e) != view(e2):
             bad.append("%r != %r" % (view(e), view(e2)))
     return {"cases": cases, "failures": [{"detail": b, "reproduced": True} for b in bad[:3]], "falsified": bool(bad)}
+
+
+@kind("codec.roundtrip_corpus")
+def roundtrip_corpus(w):
+    """Bounded stand-in for C03 (labelled bounded): every emittable message kind x random subsets of
+    optional attributes x 0..3 children x a character-class corpus, through to_string/from_string."""
+    import random
+    import inspect
+    from indi import message as M
+    from indi.message import def_parts, one_parts
+    rnd = random.Random(w.get("seed", 0))
+    texts = ["x", "a b", "line one\nline two", "<&>\"'", "é Ж 中 \U0001F600", "a\tb", "0", "]]>", "-->", "x  y"]
+    vec = {
+        "DefTextVector": (def_parts.DefText, {"state": "Ok", "perm": "rw"}), "DefNumberVector": (def_parts.DefNumber, {"state": "Ok", "perm": "ro"}),
+        "DefSwitchVector": (def_parts.DefSwitch, {"state": "Busy", "perm": "wo", "rule": "OneOfMany"}), "DefLightVector": (def_parts.DefLight, {"state": "Idle"}),
+        "DefBLOBVector": (def_parts.DefBLOB, {"state": "Alert", "perm": "rw"}),
+        "SetTextVector": (one_parts.OneText, {"state": "Ok"}), "SetNumberVector": (one_parts.OneNumber, {"state": "Ok"}),
+        "SetSwitchVector": (one_parts.OneSwitch, {"state": "Ok"}), "SetLightVector": (one_parts.OneLight, {"state": "Ok"}),
+        "SetBLOBVector": (one_parts.OneBLOB, {"state": "Ok"}),
+        "NewTextVector": (one_parts.OneText, {}), "NewNumberVector": (one_parts.OneNumber, {}), "NewSwitchVector": (one_parts.OneSwitch, {}),
+        "NewBLOBVector": (one_parts.OneBLOB, {}),
+    }
+
+    def part(pc, i):
+        kw = {"name": "e%d" % i}
+        nm = pc.__name__
+        if "Switch" in nm:
+            kw["value"] = rnd.choice(["On", "Off"])
+        elif "Light" in nm:
+            kw["value"] = rnd.choice(["Idle", "Ok", "Busy", "Alert"])
+        elif "Number" in nm:
+            kw["value"] = rnd.choice(["1", "-2.5", "3:30", "0", "12:30:15.5"])
+        else:
+            kw["value"] = rnd.choice(texts + [None])
+        if nm == "DefNumber":
+            kw.update(format="%.2f", min=rnd.choice([0, 1, "0"]), max=10, step=rnd.choice([0, 1]))
+        if nm == "OneBLOB":
+            kw.update(size=rnd.choice([0, 3]), format=".fits")
+        if nm.startswith("Def") and rnd.random() < .5:
+            kw["label"] = rnd.choice(texts + [""])
+        return {"class": nm, "module": pc.__module__, "fields": kw}
+    cases, failures = 0, []
+    for it in range(w.get("n", 300)):
+        name = rnd.choice(list(vec) + ["GetProperties", "EnableBLOB", "DelProperty", "Message", "PingRequest", "PingReply"])
+        cls = getattr(M, name)
+        kw = {}
+        if name in vec:
+            pc, base = vec[name]
+            kw.update(device=rnd.choice(["CAM", "é dev", "a<b"]), name=rnd.choice(["P", "x y"]), **base)
+            for opt in ("label", "group", "timestamp", "message", "timeout"):
+                if opt in inspect.signature(cls.__init__).parameters or any(opt in inspect.signature(c.__init__).parameters for c in cls.__mro__ if hasattr(c, "__init__") and c is not object):
+                    if rnd.random() < .5:
+                        kw[opt] = rnd.choice(texts + [0, ""]) if opt != "timeout" else rnd.choice([0, 1, "60"])
+            d = {"class": name, "module": cls.__module__, "fields": kw, "children": [part(pc, i) for i in range(rnd.randint(0, 3))]}
+        else:
+            if name == "GetProperties":
+                kw = {"version": "1.7"}
+                if rnd.random() < .5:
+                    kw["device"] = rnd.choice(texts)
+                if rnd.random() < .5:
+                    kw["name"] = rnd.choice(texts)
+            elif name == "EnableBLOB":
+                kw = {"device": rnd.choice(texts), "value": rnd.choice(["Never", "Also", "Only"])}
+            elif name == "DelProperty":
+                kw = {"device": "CAM"}
+                if rnd.random() < .5:
+                    kw["name"] = rnd.choice(texts)
+            elif name == "Message":
+                kw = {k: rnd.choice(texts + [""]) for k in ("device", "timestamp", "message") if rnd.random() < .6}
+            else:
+                kw = {"uid": rnd.choice(texts)}
+            d = {"class": name, "module": cls.__module__, "fields": kw}
+        cases += 1
+        r = codec_roundtrip({"m": d})
+        if r.get("reproduced"):
+            failures.append({"detail": r["detail"], "witness": {"replay_kind": "codec.roundtrip", "m": d}, "reproduced": True})
+            if len(failures) >= 3:
+                break
+    return {"cases": cases, "failures": failures}
